@@ -237,6 +237,21 @@ def applyUnary (op : UnOp) (a : Prim α) : Res α :=
   | .other .undefined, _ => .error .undefinedUse
   | _, _ => .error .unsupportedUn
 
+/-- the operand on which the unchecked `-self` / `-(*self as i64)` overflows -/
+def negatesMin : Prim α → Bool
+  | .integer i => i == i64Min
+  | .pint u => u64AsI64 u == i64Min
+  | _ => false
+
+
+/-- `checked_neg` / `0i64.checked_sub_unsigned(u)` -/
+def applyUnaryFixed (op : UnOp) (a : Prim α) : Res α :=
+  match a, op with
+  | .integer i, .neg => ofI64 (checkedI64 (-i))
+  | .pint u, .neg => ofI64 (checkedI64 (-(u : Int)))
+  | a, op => applyUnary op a
+
+
 /-! ### casts (`TransformError::WrongArgument` is the only failure) -/
 
 inductive CastErr where | wrongArgument
